@@ -497,6 +497,7 @@ func C10(run *mon.Run) {
 			go func(pi, chunk int) {
 				defer wg.Done()
 				defer func() { <-sem }()
+				defer run.Protect("c10 worker")
 				r := run.Rand(fmt.Sprintf("ex-%d-%d", pi, chunk))
 				a, b := chunk/nSyms, chunk%nSyms
 				cnt := 0
@@ -530,6 +531,7 @@ func C10(run *mon.Run) {
 		wg.Add(1)
 		go func(w int) {
 			defer wg.Done()
+			defer run.Protect("c10 worker")
 			r := run.Rand(fmt.Sprintf("rand-%d", w))
 			for i := 0; i < nRand/16; i++ {
 				l := 5 + r.IntN(21)
